@@ -86,6 +86,61 @@ func VsymC02_History() {
 	vsym_Reach("history")
 }
 
+// VsymC02_RequeueOrder: a flush whose upload fails while another produce is appended meanwhile;
+// the retried flush stores the batches in offset order and the log continues after them.
+func VsymC02_RequeueOrder() {
+	ctx := context.Background()
+	s3 := newVsymS3()
+	l := vsymNewLog(s3, 0, PartitionLogConfig{}, nil)
+	nx, ny := int32(1+vsym_Choose("x-records", 2)), int32(1+vsym_Choose("y-records", 2))
+	bx, _ := NewRecordBatchFromBytes(vsymBatch(nx, vsym_Bytes("x", 1)))
+	rx, err := l.AppendBatch(ctx, bx)
+	vsym_Assert(err == nil && rx.BaseOffset == 0, "C02/first-offset-zero")
+	var ry *AppendResult
+	done := false
+	s3.onCall = func(op, key string) {
+		if op != "upload-segment" || done {
+			return
+		}
+		done = true
+		by, _ := NewRecordBatchFromBytes(vsymBatch(ny, vsym_Bytes("y", 1)))
+		r, err := l.AppendBatch(ctx, by)
+		if err == nil {
+			ry = r
+		}
+	}
+	s3.failOp = "upload-segment"
+	vsym_Assert(l.Flush(ctx) != nil, "C02/failed-upload-fails-the-flush")
+	vsym_Assert(ry != nil && ry.BaseOffset == rx.LastOffset+1, "C02/successive-batches-abut")
+	vsym_Assert(l.Flush(ctx) == nil, "C02/retried-flush-succeeds")
+	vsym_Reach("requeued")
+	// what S3 now holds, in key order, must list the offsets in increasing order without gaps
+	next := int64(0)
+	for _, key := range s3.puts {
+		if len(key) < 4 || key[len(key)-4:] != ".kfs" {
+			continue
+		}
+		seg := s3.objs[key]
+		body := seg[32 : len(seg)-16]
+		for len(body) > 0 {
+			vsym_Assert(len(body) >= 61, "C02/stored-batch-frame")
+			base := int64(binary.BigEndian.Uint64(body[0:8]))
+			blen := int(binary.BigEndian.Uint32(body[8:12]))
+			count := int64(binary.BigEndian.Uint32(body[57:61]))
+			vsym_Assert(base == next, "C02/stored-batches-in-offset-order-without-gaps")
+			next = base + count
+			body = body[12+blen:]
+		}
+		last, perr := parseSegmentFooter(seg[len(seg)-16:])
+		vsym_Assert(perr == nil && last == next-1, "C02/footer-names-the-last-offset")
+	}
+	vsym_Assert(next == int64(nx)+int64(ny), "C02/every-appended-batch-stored-once")
+	// and a restart continues after them
+	l2 := vsymNewLog(s3, 0, PartitionLogConfig{}, nil)
+	lastRestored, rerr := l2.RestoreFromS3(ctx)
+	vsym_Assert(rerr == nil && lastRestored == next-1, "C02/restart-continues-after-the-last-stored-offset")
+}
+
 func VsymC02_Twin() {
 	l := vsymNewLog(newVsymS3(), vsym_Int64("next"), PartitionLogConfig{}, nil)
 	res, _ := l.AppendBatch(context.Background(), RecordBatch{Bytes: vsymBatch(1, nil)})
